@@ -807,7 +807,7 @@ func runC04(r *rt.Runner) {
 		}
 	})
 	// serialisation: String.PS and Name.PS read back
-	nSer := r.N(400, 20000)
+	nSer := r.N(2000, 20000)
 	for k := 0; k < nSer; k++ {
 		r.Case("serialise", func(c *rt.C) {
 			g := &g4{rng: c.Rand(), feat: map[string]bool{}}
@@ -825,7 +825,7 @@ func runC04(r *rt.Runner) {
 		})
 	}
 	// generated sequences
-	nGen := r.N(30000, 3000000)
+	nGen := r.N(200000, 3000000)
 	for k := 0; k < nGen; k++ {
 		r.Case("generated", func(c *rt.C) {
 			g := &g4{rng: c.Rand(), feat: map[string]bool{}}
